@@ -234,7 +234,15 @@ def band_cov(rng, stdevs, band):
 
 
 def count_obs(net):
-    return sum(len(c["obs"]) * (3 if c["kind"] == "vectors" else 1) for c in net["clusters"])
+    n = 0
+    for c in net["clusters"]:
+        if c["kind"] == "vectors":
+            n += 3 * len(c["obs"])
+        elif c["kind"] == "coordinates":
+            n += sum(sum(1 for k in ("x", "y", "z") if k in ob) for ob in c["obs"])
+        else:
+            n += len(c["obs"])
+    return n
 
 
 def add_coordinates_cluster(rng, net, truth, ids, dim=2, noise=1.0, sd=5.0, cov_band=None):
